@@ -9,6 +9,7 @@ LEVEL = "proof"
 COQ_FILES = ["Tie/C03_tie.v", "Props/C03_props.v"]
 PROPS_FILES = ["C03_props.v"]
 TRUSTED_BASE = [
+    "vlib/symex.py (symbolic execution of the translated Python subset on the ast: the translator reads value / outcome trees, so local names, intermediates, helpers and the form of branches do not matter; its assumptions - pure expressions, opaque calls, no aliasing writes, try handlers not modelled - are listed in DESIGN.md 12.7; fail-closed)",
     "vlib/opir.py (AST -> operator-expression IR of coq/Base/OpIR.v) for apply_mask, apply_padding, ApplyMaskModule.forward, MRIModelEngine._forward_operator/_backward_operator, MRILogLikelihood.forward, ConjGrad._A_star_op/_A_star_A_op/B_op",
     "torch.where(mask == 0, 0, x) is element-wise selection with broadcasting (the selection model coq/Model/C03.v is tied by bit-exact correspondence incl. -0.0, NaN and inf values, bool / int / float masks, every broadcastable mask shape)",
     "the forward/backward operators, expand/reduce and arithmetic are arbitrary functions in the non-interference theorem (nothing about them is assumed)",
